@@ -48,6 +48,10 @@ PACKAGES['vfq_m2'] = {'imports': ['vfq_m1'],
 # two components whose key datatypes have dotted names that differ in letter case only
 PACKAGES['vfq_c1'] = {'types': [gen.stype('pq', [gen.key('kq', 'vf.dtsupport.shout')], implements='aa')]}
 PACKAGES['vfq_c2'] = {'types': [gen.stype('pr', [gen.key('kq', 'vf.dtsupport.Shout')], implements='aa')]}
+# a component that declares an implementer and THEN turns out to be invalid (it re-declares a type of the
+# application schema): importing it is refused, and nothing of it may survive the refusal
+PACKAGES['vfq_bad'] = {'types': [gen.stype('px', [gen.key('kx')], implements='aa'),
+                                 gen.stype('ta', [gen.key('ka')])], 'broken': True}
 _PK = {}
 
 
@@ -100,6 +104,16 @@ LOADS = {
     # a load with a pending override for a later section while sections of imported types start
     'ovr': ['%import vfq_a', ['<', W('t'), '/>'], '<tb zz>', '</tb>', ['<', W('u'), ' nn/>']],
     'ovr-imported': ['%import vfq_a', ['<', W('t'), ' nn>'], ['</', ['=', 't'], '>'], '<tb/>'],
+    'c-import-broken': ['%import vfq_bad'],
+    'broken-then-use': ['%import vfq_bad', ['<', W('t'), '/>']],
+    # an %include after an %import: the fragment (and what follows it) still sees the imported types
+    'import-include': ['%import vfq_a', '%include inc.conf', ['<', W('t'), '/>']],
+    'import-include-2': ['<ta/>', '%import vfq_b', '<tb>', '%include inc2.conf', '</tb>', ['<', W('t'), ' sa/>']],
+}
+INCLUDED = {'inc.conf': [['<', W('u'), ' nn/>']], 'inc2.conf': ['kb 1']}
+INLINED = {
+    'import-include': ['%import vfq_a', ['<', W('u'), ' nn/>'], ['<', W('t'), '/>']],
+    'import-include-2': ['<ta/>', '%import vfq_b', '<tb>', 'kb 1', '</tb>', ['<', W('t'), ' sa/>']],
 }
 # overrides passed with a load, and the same text edited by hand (what the oracle reads)
 OVERRIDES = {
@@ -112,13 +126,16 @@ SEQS_Q = [['plain'], ['mutual'], ['mutual-2'], ['import-then-use'], ['use-before
 # every (concrete earlier load, any later load) pair against one schema object
 SEQS_Q += [[a, b] for a in ('c-import-use', 'c-import-b', 'c-bad', 'bad-import') for b in LOADS
            if [a, b] not in SEQS_Q]
-SEQS_Q += [['ovr'], ['ovr-imported'], ['c-import-ab'], ['c-import-ba']]
+SEQS_Q += [['ovr'], ['ovr-imported'], ['c-import-ab'], ['c-import-ba'], ['import-include'], ['import-include-2'],
+           ['broken-then-use'], ['c-import-broken', 'plain'], ['c-import-broken', 'import-then-use'],
+           ['c-import-use', 'import-include']]
 SEQS_Q += [[a, b] for a in ('c-import-ab', 'c-import-ba')
            for b in ('import-then-use', 'use-before', 'plain', 'fixed-slot', 'between')]
 # ONE ConfigLoader object serving the loads of a sequence (the vocabulary of an earlier load of the same
 # loader must not reach a later one either)
 SAME_LOADER = [[a, b] for a in ('c-import-use', 'c-import-b', 'c-import-ab')
                for b in ('plain', 'use-before', 'import-then-use', 'fixed-slot')]
+SAME_LOADER += [['c-import-broken', 'plain'], ['c-import-broken', 'import-then-use'], ['c-import-use', 'import-include']]
 SEQS_T = SEQS_Q + [[a, b, c] for a in ('c-import-use', 'c-bad') for b in ('c-import-b', 'c-import-use', 'nocomp')
                    for c in ('import-then-use', 'between', 'twice', 'fixed-slot', 'plain')] + [['c-import-b', 'import-then-use'], ['bad-import', 'c-import-use', 'fixed-slot'],
                    ['c-import-use', 'c-import-use', 'twice'], ['c-bad', 'in-section']]
@@ -175,9 +192,16 @@ class C12(P.TextMixin, Harness):
                 us.append({'files': files, 'seq': seq, 'check': 'outcome', 'same_loader': True})
         for u in us:
             # the hand-edited spelling of a load that carries overrides
-            if any(n in OVERRIDES for n in u['seq']):
-                u['edited'] = [[f[0], self._step_lines(OVERRIDES[n][1], i) if n in OVERRIDES else f[1]]
+            if any(n in OVERRIDES or n in INLINED for n in u['seq']):
+                u['edited'] = [[f[0], self._step_lines(OVERRIDES[n][1], i) if n in OVERRIDES else
+                                (self._step_lines(INLINED[n], i) if n in INLINED else f[1])]
                                for i, (n, f) in enumerate(zip(u['seq'], u['files']))]
+            if any(n in INLINED for n in u['seq']):
+                # the included fragments, with the hole ids of the step they belong to
+                u['files'] = u['files'] + [['inc%d/%s' % (i, fn), self._step_lines(ls, i)]
+                                           for i, n in enumerate(u['seq']) if n in INLINED
+                                           for fn, ls in INCLUDED.items()]
+                u['nsteps'] = len(u['seq'])
         return us
 
     @staticmethod
@@ -207,8 +231,9 @@ class C12(P.TextMixin, Harness):
         if unit.get('same_loader'):
             import ZConfig.loader
             loader = ZConfig.loader.ConfigLoader(schema)
-        for step, (name, lines) in zip(unit['seq'], files):
-            with common.env_scope(common.all_concrete(inp), {}):
+        for si, (step, (name, lines)) in enumerate(zip(unit['seq'], files)):
+            store = {P.BASE + n.split('/', 1)[1]: ls for n, ls in files if n.startswith('inc%d/' % si)}
+            with common.env_scope(common.all_concrete(inp), {}), P.mem_resources(store):
                 try:
                     if loader is not None:
                         cfg, _ = loader.loadFile(common.make_file(lines), P.BASE + name)
@@ -228,7 +253,7 @@ class C12(P.TextMixin, Harness):
         from ..oracles import linegrammar as G, conformance as CF
         files = self.text_files(unit, inp, 'edited' if 'edited' in unit else 'files')
         out = []
-        for name, lines in files:
+        for name, lines in files[:len(unit['seq'])]:
             g = G.parse(lines, 'record', want_lines=True)
             if g[0] != 'ok':
                 out.append(('reject',))
